@@ -277,6 +277,7 @@ func (f *readFile) handleReadError(ctx context.Context, err error, fd *os.File,
 	if err != io.EOF {
 		return abortReading, err
 	}
+	vhook.Point("fs.eof", f.filePath)
 
 	select {
 	case <-truncate:
